@@ -764,7 +764,7 @@ Definition spec_next (s : Z) (g : sp) (o : fop3) : sp :=
   | GPub m _ => mksp (Some m) (spsub g) (spcan g) (spcl g)
   | GCancel => mksp (spmsg g) (spsub g) true (spcl g)
   | GAfter => mksp (spmsg g) (spsub g) (spcan g) (spcl g || spcan g)
-  | GRun => g
+  | GRun | GBlock | GRelease => g
   end.
 Fixpoint owed_spec (s : Z) (g : sp) (l : list fop3) : list Z :=
   match l with [] => [] | o :: r => owed_now s g o ++ owed_spec s (spec_next s g o) r end.
@@ -798,7 +798,7 @@ Proof.
     destruct (closing q); rewrite <- ?app_assoc; reflexivity.
 Qed.
 
-Lemma step3_spec s p o p' e : step3 p o = (p', e) -> inv3 p ->
+Lemma step3_spec s p o p' e : s <> blocker -> step3 p o = (p', e) -> inv3 p ->
   inv3 p' /\ spec_of s p' = spec_next s (spec_of s p) o /\
   match o with
   | GRun => (del_to s e = [] /\ Q s p' = Q s p) \/
@@ -808,7 +808,7 @@ Lemma step3_spec s p o p' e : step3 p o = (p', e) -> inv3 p ->
   | _ => del_to s e = [] /\ Q s p' = Q s p ++ owed_now s (spec_of s p) o
   end.
 Proof.
-  intros H (I & C & Nd). destruct p as [q cn fr pc mg sb]; cbn [pq pcan pfired ppc pmsg psubs] in *.
+  intros Nb H (I & C & Nd). destruct p as [q cn fr pc mg sb]; cbn [pq pcan pfired ppc pmsg psubs] in *.
   destruct o; cbn [step3 pq pcan pfired ppc pmsg psubs] in H.
   - (* GSub *)
     inv H. unfold spec_of, Q, inv3; cbn [pq pcan pfired ppc pmsg psubs spec_next owed_now spmsg spsub spcan spcl].
@@ -861,7 +861,9 @@ Proof.
       destruct (run_step_spec _ _ _ _ _ E I) as (I' & C' & -> & P & ->).
       unfold spec_of, Q, inv3; cbn [pq pcan pfired ppc pmsg psubs spec_next cbs app].
       split; [split; [exact I'|split; [congruence|exact Nd]]|]. split; [reflexivity|]. left. cbn. rewrite P. auto.
-    + inv H. unfold spec_of, Q, inv3; cbn [pq pcan pfired ppc pmsg psubs spec_next cbs app].
+    + destruct (s' =? blocker) eqn:Eb.
+      { inv H. split; [split; [exact I|split; [reflexivity|exact Nd]]|]. split; [reflexivity|]. left. auto. }
+      inv H. unfold spec_of, Q, inv3; cbn [pq pcan pfired ppc pmsg psubs spec_next cbs app].
       split; [split; [exact I|split; [congruence|exact Nd]]|]. split; [reflexivity|].
       unfold fsel; cbn [filter fst map snd].
       destruct (s' =? s) eqn:E.
@@ -869,19 +871,36 @@ Proof.
         destruct (memz s sb); cbn; rewrite ?Z.eqb_refl; auto.
       * left. split; [|reflexivity]. destruct (memz s' sb); cbn; rewrite ?E; reflexivity.
     + inv H. unfold spec_of, Q, inv3; cbn. auto 10.
+  - (* GBlock *)
+    inv H. unfold spec_of, Q, inv3; cbn [pq pcan pfired ppc pmsg psubs spec_next owed_now].
+    destruct (try_sched_spec q (blocker, 0) I) as (I' & C' & P). rewrite P, app_nil_r.
+    split; [split; [exact I'|split; [congruence|exact Nd]]|]. split; [reflexivity|]. split; [reflexivity|].
+    assert (Hx: fsel s [(blocker, 0)] = []).
+    { unfold fsel. cbn [filter fst]. destruct (blocker =? s) eqn:E; [apply Z.eqb_eq in E; congruence|reflexivity]. }
+    destruct (closing q); rewrite ?app_nil_r; [reflexivity|].
+    rewrite app_assoc, fsel_app, Hx, app_nil_r. reflexivity.
+  - (* GRelease *)
+    assert (Same: inv3 (mkps q cn (closing q) pc mg sb) /\ spec_of s (mkps q cn (closing q) pc mg sb) = spec_next s (spec_of s (mkps q cn (closing q) pc mg sb)) GRelease).
+    { split; [split; [exact I|split; [reflexivity|exact Nd]]|reflexivity]. }
+    destruct pc as [|a|[s' m']|]; try solve [inv H; destruct Same; cbn [owed_now]; rewrite app_nil_r; auto].
+    destruct (s' =? blocker) eqn:Eb; inv H; [|destruct Same; cbn [owed_now]; rewrite app_nil_r; auto].
+    apply Z.eqb_eq in Eb. subst s'.
+    unfold spec_of, Q, inv3; cbn [pq pcan pfired ppc pmsg psubs spec_next owed_now cbs app].
+    split; [split; [exact I|split; [reflexivity|exact Nd]]|]. split; [reflexivity|]. split; [reflexivity|].
+    rewrite app_nil_r. unfold fsel. cbn [filter fst]. destruct (blocker =? s) eqn:E; [apply Z.eqb_eq in E; congruence|reflexivity].
 Qed.
 
 Lemma spec_of_sub s p : spsub (spec_of s p) = memz s (psubs p).
 Proof. reflexivity. Qed.
 
 (* nothing is delivered to s while it is not subscribed *)
-Lemma pubsub_A0 s : forall l p pf e, steps3 p l = (pf, e) -> inv3 p ->
+Lemma pubsub_A0 s : s <> blocker -> forall l p pf e, steps3 p l = (pf, e) -> inv3 p ->
   memz s (psubs p) = false -> ~ In s (sub_ids l) -> del_to s e = [].
 Proof.
-  induction l as [|o r IH]; intros p pf e H I M Ns; cbn in H.
+  intro Nb. induction l as [|o r IH]; intros p pf e H I M Ns; cbn in H.
   - inv H. reflexivity.
   - destruct (step3 p o) as [p1 e1] eqn:E1. destruct (steps3 p1 r) as [p2 e2] eqn:E2. inv H.
-    destruct (step3_spec s _ _ _ _ E1 I) as (I1 & Sp & X).
+    destruct (step3_spec s _ _ _ _ Nb E1 I) as (I1 & Sp & X).
     assert (M1: memz s (psubs p1) = false).
     { rewrite <- spec_of_sub, Sp. destruct o; cbn; auto.
       - destruct (s0 =? s) eqn:Es; [|exact M]. apply Z.eqb_eq in Es. subst. exfalso. apply Ns. cbn. auto.
@@ -893,14 +912,14 @@ Proof.
     destruct X as [(X & _)|(m & _ & [(_ & X)|(X & _)])]; auto. congruence.
 Qed.
 
-Lemma pubsub_A1 s : forall l p pf e, steps3 p l = (pf, e) -> inv3 p ->
+Lemma pubsub_A1 s : s <> blocker -> forall l p pf e, steps3 p l = (pf, e) -> inv3 p ->
   memz s (psubs p) = true -> ~ In s (sub_ids l) ->
   exists rest, Q s p ++ owed_spec s (spec_of s p) l = del_to s e ++ rest.
 Proof.
-  induction l as [|o r IH]; intros p pf e H I M Ns; cbn in H.
+  intro Nb. induction l as [|o r IH]; intros p pf e H I M Ns; cbn in H.
   - inv H. cbn. eauto.
   - destruct (step3 p o) as [p1 e1] eqn:E1. destruct (steps3 p1 r) as [p2 e2] eqn:E2. inv H.
-    destruct (step3_spec s _ _ _ _ E1 I) as (I1 & Sp & X).
+    destruct (step3_spec s _ _ _ _ Nb E1 I) as (I1 & Sp & X).
     assert (Ns1: ~ In s (sub_ids r)).
     { intro Hin. apply Ns. unfold sub_ids in *. cbn [flat_map]. apply in_or_app. right. exact Hin. }
     cbn [owed_spec]. rewrite <- Sp, del_to_app.
@@ -910,7 +929,7 @@ Proof.
       destruct X as [(X1 & X2)|(m & X2 & [(X1 & _)|(_ & X1)])]; [| |congruence].
       * rewrite X1, <- X2. cbn. eauto.
       * rewrite X1, X2. cbn. rewrite Hr. eauto.
-    + rewrite (pubsub_A0 s _ _ _ _ E2 I1 M1 Ns1), app_nil_r.
+    + rewrite (pubsub_A0 s Nb _ _ _ _ E2 I1 M1 Ns1), app_nil_r.
       assert (D1: del_to s e1 = []).
       { destruct o; try (destruct X as (X & _); exact X).
         destruct X as [(X & _)|(m & _ & [(_ & X)|(X & _)])]; auto.
@@ -919,14 +938,14 @@ Proof.
       rewrite D1. cbn. eauto.
 Qed.
 
-Lemma pubsub_B s : forall l p pf e, steps3 p l = (pf, e) -> inv3 p ->
+Lemma pubsub_B s : s <> blocker -> forall l p pf e, steps3 p l = (pf, e) -> inv3 p ->
   memz s (psubs p) = false -> Q s p = [] -> NoDup (sub_ids l) ->
   exists rest, owed_spec s (spec_of s p) l = del_to s e ++ rest.
 Proof.
-  induction l as [|o r IH]; intros p pf e H I M Qe Nd; cbn in H.
+  intro Nb. induction l as [|o r IH]; intros p pf e H I M Qe Nd; cbn in H.
   - inv H. cbn. eauto.
   - destruct (step3 p o) as [p1 e1] eqn:E1. destruct (steps3 p1 r) as [p2 e2] eqn:E2. inv H.
-    destruct (step3_spec s _ _ _ _ E1 I) as (I1 & Sp & X).
+    destruct (step3_spec s _ _ _ _ Nb E1 I) as (I1 & Sp & X).
     cbn [owed_spec]. rewrite <- Sp, del_to_app.
     assert (D1: del_to s e1 = [] /\ Q s p1 = owed_now s (spec_of s p) o).
     { destruct o; try (destruct X as (X1 & X2); rewrite X1, X2, Qe; auto).
@@ -939,7 +958,7 @@ Proof.
         - rewrite <- spec_of_sub, Sp in M1. cbn in M1. destruct (s0 =? s) eqn:Es; [|cbn in M1; congruence].
           apply Z.eqb_eq in Es. subst. unfold sub_ids in Nd. cbn in Nd. inv Nd. auto.
         - rewrite <- spec_of_sub, Sp in M1. cbn in M1. destruct (s0 =? s); cbn in M1; congruence. }
-      destruct (pubsub_A1 s _ _ _ _ E2 I1 M1 Ns1) as (rest & Hr). rewrite <- Q1, Hr. eauto.
+      destruct (pubsub_A1 s Nb _ _ _ _ E2 I1 M1 Ns1) as (rest & Hr). rewrite <- Q1, Hr. eauto.
     + assert (Nd1: NoDup (sub_ids r)).
       { unfold sub_ids in *. cbn [flat_map] in Nd. destruct o; cbn in Nd; auto. inv Nd; auto. }
       assert (Q1e: Q s p1 = []).
@@ -952,22 +971,22 @@ Qed.
 
 (* Each subscriber receives a prefix of what it is owed: the latest value at subscription,
    then every later publish while subscribed (and before shutdown), in publish order. *)
-Theorem pubsub_order s l pf e : steps3 ps0 l = (pf, e) -> NoDup (sub_ids l) ->
+Theorem pubsub_order s l pf e : s <> blocker -> steps3 ps0 l = (pf, e) -> NoDup (sub_ids l) ->
   exists rest, owed_spec s sp0 l = del_to s e ++ rest.
-Proof. intros H Nd. exact (pubsub_B s _ _ _ _ H inv3_0 eq_refl eq_refl Nd). Qed.
+Proof. intros Nb H Nd. exact (pubsub_B s Nb _ _ _ _ H inv3_0 eq_refl eq_refl Nd). Qed.
 
 (* ... and nothing after unsubscription (nor before subscription) *)
-Theorem pubsub_nothing_when_unsubscribed s l1 p1 e1 l2 p2 e2 :
+Theorem pubsub_nothing_when_unsubscribed s l1 p1 e1 l2 p2 e2 : s <> blocker ->
   steps3 ps0 l1 = (p1, e1) -> memz s (psubs p1) = false ->
   steps3 p1 l2 = (p2, e2) -> ~ In s (sub_ids l2) -> del_to s e2 = [].
 Proof.
-  intros H1 M H2 Ns.
+  intros Nb H1 M H2 Ns.
   assert (I1: inv3 p1).
   { clear - H1. revert H1. generalize inv3_0. generalize ps0. revert p1 e1.
     induction l1 as [|o r IH]; intros p1 e1 p I H; cbn in H; [inv H; exact I|].
     destruct (step3 p o) as [pa ea] eqn:Ea. destruct (steps3 pa r) as [pb eb] eqn:Eb. inv H.
-    destruct (step3_spec 0 _ _ _ _ Ea I) as (Ia & _). eapply IH; eauto. }
-  eapply pubsub_A0; eauto.
+    destruct (step3_spec 0 _ _ _ _ ltac:(discriminate) Ea I) as (Ia & _). eapply IH; eauto. }
+  eapply (pubsub_A0 s Nb); eauto.
 Qed.
 
 (* without the freshness hypothesis a re-subscribed Subscriber can receive a stale callback of
@@ -985,8 +1004,8 @@ Definition fsub (subs : list Z) (l : list (Z * Z)) := filter (fun sm => memz (fs
 Definition R3 (p : ps) (m : mon3) (ever : list Z) : Prop :=
   m3owed m = fsub (psubs p) (qall p) /\ m3subs m = psubs p /\ m3msg m = pmsg p /\
   m3can m = pcan p /\ m3fired m = pfired p /\ m3done m = is_done (ppc p) /\
-  (forall sm, In sm (qall p) -> memz (fst sm) ever = true) /\
-  (forall s, memz s (psubs p) = true -> memz s ever = true) /\ inv3 p.
+  (forall sm, In sm (qall p) -> fst sm = blocker \/ memz (fst sm) ever = true) /\
+  (forall s, memz s (psubs p) = true -> memz s ever = true /\ s <> blocker) /\ inv3 p.
 
 Lemma pub_order_nil subs : pub_order subs [] = subs.
 Proof.
@@ -1010,51 +1029,47 @@ Proof.
   induction l as [|x l IH]; cbn; [reflexivity|]. destruct (g x); cbn; [destruct (f x)|]; rewrite IH; reflexivity.
 Qed.
 
+Lemma mk_R3 q cn fr pc mg sb ow ever st :
+  ow = fsub sb (cbs pc ++ pending q) ->
+  (forall sm, In sm (cbs pc ++ pending q) -> fst sm = blocker \/ memz (fst sm) ever = true) ->
+  (forall s, memz s sb = true -> memz s ever = true /\ s <> blocker) -> inv3 (mkps q cn fr pc mg sb) ->
+  R3 (mkps q cn fr pc mg sb) (mkm3 ow sb mg cn fr (is_done pc) st) ever.
+Proof. intros. unfold R3, qall; cbn. auto 12. Qed.
+
 Lemma bridge3_run p m ever p' e : step3 p GRun = (p', e) -> R3 p m ever ->
   exists m' cs, mon3_evs m e = (m', cs) /\ all_ok cs = true /\ R3 p' m' ever.
 Proof.
   intros H (Ro & Rs & Rm & Rc & Rf & Rd & Ev & Sv & I). pose proof I as (Iq & C & Nd).
-  destruct (step3_spec 0 _ _ _ _ H I) as (I' & _).
-  destruct p as [q cn fr pc mg sb]; destruct m as [ow ms mm mc mf md];
+  destruct (step3_spec 0 _ _ _ _ ltac:(discriminate) H I) as (I' & _).
+  destruct p as [q cn fr pc mg sb]; destruct m as [ow ms mm mc mf md st];
     unfold qall in *; cbn [pq pcan pfired ppc pmsg psubs m3owed m3subs m3msg m3can m3fired m3done] in *. subst.
   cbn [step3 ppc pq pcan pfired pmsg psubs] in H. destruct pc as [|a|[s v]|].
   - destruct (run_step q PRecv) as [[q1 p1] dn] eqn:E. cbn in H. inv H.
     destruct (run_step_spec _ _ _ _ _ E Iq) as (_ & _ & [(a & -> & P & ->)|[(-> & -> & -> & P & Cd)|(-> & -> & ->)]]); cbn [mon3_evs].
     + eexists; eexists; split; [reflexivity|]; split; [reflexivity|].
-      unfold R3, qall; cbn [pq pcan pfired ppc pmsg psubs m3owed m3subs m3msg m3can m3fired m3done cbs app] in *.
-      rewrite P in *. cbn [app] in *. auto 12.
+      apply (mk_R3 q1 cn (closing q) (PLoad a)); auto; cbn [cbs app] in *; rewrite P in *; auto.
     + cbn. rewrite P in *. cbn. destruct (Iq Cd) as (Cg & _). rewrite Cg in *. cbn.
       eexists; eexists; split; [reflexivity|]; split; [reflexivity|].
-      unfold R3, qall; cbn [pq pcan pfired ppc pmsg psubs m3owed m3subs m3msg m3can m3fired m3done cbs app].
-      rewrite P. cbn. repeat (split; [solve [auto]|]). auto.
+      apply (mk_R3 q cn true PDone); auto; cbn [cbs app] in *; rewrite ?P; auto.
     + eexists; eexists; split; [reflexivity|]; split; [reflexivity|].
-      unfold R3, qall; cbn [pq pcan pfired ppc pmsg psubs m3owed m3subs m3msg m3can m3fired m3done cbs app]. auto 12.
+      apply (mk_R3 q cn (closing q) PRecv); auto.
   - destruct (run_step q (PLoad a)) as [[q1 p1] dn] eqn:E. cbn in H. inv H.
     destruct (run_step_spec _ _ _ _ _ E Iq) as (_ & _ & -> & P & ->). cbn [mon3_evs].
     eexists; eexists; split; [reflexivity|]; split; [reflexivity|].
-    unfold R3, qall; cbn [pq pcan pfired ppc pmsg psubs m3owed m3subs m3msg m3can m3fired m3done cbs app] in *.
-    rewrite P. auto 12.
-  - inv H. cbn [cbs app fsub filter fst] in *. destruct (memz s sb) eqn:M.
+    apply (mk_R3 q1 cn (closing q) (PRun a)); auto; cbn [cbs app] in *; rewrite P; auto.
+  - destruct (s =? blocker) eqn:Eb.
+    { inv H. cbn [mon3_evs]. eexists; eexists; split; [reflexivity|]; split; [reflexivity|].
+      apply (mk_R3 q cn (closing q) (PRun (s, v))); auto. }
+    inv H. cbn [cbs app fsub filter fst] in *. destruct (memz s sb) eqn:M.
     + cbn [mon3_evs mon3_ev m3subs m3owed negb take_first]. rewrite M. cbn [negb]. rewrite !Z.eqb_refl.
       eexists; eexists; split; [reflexivity|]; split; [reflexivity|].
-      unfold R3, qall; cbn [pq pcan pfired ppc pmsg psubs m3owed m3subs m3msg m3can m3fired m3done cbs app].
-      repeat (split; [solve [auto]|]). split; [|auto]. intros sm Hin. apply Ev. right. exact Hin.
+      apply (mk_R3 q cn (closing q) PRecv); auto. intros sm Hin. apply Ev. right. exact Hin.
     + cbn [mon3_evs]. eexists; eexists; split; [reflexivity|]; split; [reflexivity|].
-      unfold R3, qall; cbn [pq pcan pfired ppc pmsg psubs m3owed m3subs m3msg m3can m3fired m3done cbs app].
-      repeat (split; [solve [auto]|]). split; [|auto]. intros sm Hin. apply Ev. right. exact Hin.
+      apply (mk_R3 q cn (closing q) PRecv); auto. intros sm Hin. apply Ev. right. exact Hin.
   - inv H. cbn [mon3_evs]. eexists; eexists; split; [reflexivity|]; split; [reflexivity|].
-    unfold R3, qall; cbn [pq pcan pfired ppc pmsg psubs m3owed m3subs m3msg m3can m3fired m3done cbs app]. auto 12.
+    apply (mk_R3 q cn (closing q) PDone); auto.
 Qed.
 
-Definition ever_next (ever : list Z) (op : word) : list Z := match op with [1; s] => s :: ever | _ => ever end.
-Definition wf3_op (ever : list Z) (op : word) : bool := match op with [1; s] => negb (memz s ever) | _ => true end.
-
-Lemma mk_R3 q cn fr pc mg sb ow ever :
-  ow = fsub sb (cbs pc ++ pending q) ->
-  (forall sm, In sm (cbs pc ++ pending q) -> memz (fst sm) ever = true) ->
-  (forall s, memz s sb = true -> memz s ever = true) -> inv3 (mkps q cn fr pc mg sb) ->
-  R3 (mkps q cn fr pc mg sb) (mkm3 ow sb mg cn fr (is_done pc)) ever.
-Proof. intros. unfold R3, qall; cbn. auto 12. Qed.
 
 Lemma remz_id s sb : memz s sb = false -> remz s sb = sb.
 Proof.
@@ -1063,82 +1078,169 @@ Proof.
   cbn. f_equal. apply IH. intro; apply M; right; auto.
 Qed.
 
+Ltac r3_prelude R :=
+  destruct R as (Ro & Rs & Rm & Rc & Rf & Rd & Ev & Sv & I); pose proof I as (Iq & C & Nd);
+  unfold qall in *; cbn [pq pcan pfired ppc pmsg psubs m3owed m3subs m3msg m3can m3fired m3done m3stale] in *; subst.
+
+Section Base3.
+Variables (q : ub (Z * Z)) (cn fr : bool) (pc : rpc (Z * Z)) (mg : option Z) (sb : list Z).
+Variables (ow : list (Z * Z)) (ms : list Z) (mm : option Z) (mc mf md : bool) (st : list (Z * Z)) (ever : list Z).
+Let p := mkps q cn fr pc mg sb.
+Let m := mkm3 ow ms mm mc mf md st.
+
+Lemma base_both p1 e1 : steps3 p [GCancel; GAfter] = (p1, e1) -> R3 p m ever ->
+  e1 = [] /\ exists m1, mon3_op m [5] = (m1, []) /\ R3 p1 m1 ever.
+Proof.
+  intros H R. subst p m. r3_prelude R.
+  cbn [steps3] in H. destruct (step3 _ GCancel) as [pa ea] eqn:Ea. destruct (step3 pa GAfter) as [pb eb] eqn:Eb. inv H.
+  destruct (step3_spec 0 _ _ _ _ ltac:(discriminate) Ea I) as (Ia & _).
+  destruct (step3_spec 0 _ _ _ _ ltac:(discriminate) Eb Ia) as (Ib & _).
+  cbn in Ea. inv Ea. cbn [step3 pcan pfired pq ppc pmsg psubs andb] in Eb.
+  destruct (closing q) eqn:Cg; cbn [negb] in Eb; inv Eb; (split; [reflexivity|]); eexists; (split; [reflexivity|]); cbn [m3owed m3subs m3msg m3can m3fired m3done m3stale].
+  - apply mk_R3; auto.
+  - destruct (close_spec q Iq) as (_ & _ & P). apply mk_R3; rewrite ?P; auto.
+Qed.
+
+Lemma base_cancel p1 e1 : steps3 p [GCancel] = (p1, e1) -> R3 p m ever ->
+  e1 = [] /\ exists m1, mon3_op m [3] = (m1, []) /\ R3 p1 m1 ever.
+Proof.
+  intros H R. subst p m. r3_prelude R.
+  destruct (step3_spec 0 (mkps q cn (closing q) pc mg sb) GCancel _ _ ltac:(discriminate) eq_refl I) as (Ia & _).
+  cbn in H. inv H. split; [reflexivity|]. eexists; split; [reflexivity|]. cbn [m3owed m3subs m3msg m3can m3fired m3done m3stale]. apply mk_R3; auto.
+Qed.
+
+Lemma base_after p1 e1 : steps3 p [GAfter] = (p1, e1) -> R3 p m ever ->
+  e1 = [] /\ exists m1, mon3_op m [4] = (m1, []) /\ R3 p1 m1 ever.
+Proof.
+  intros H R. subst p m. r3_prelude R.
+  cbn [steps3 step3 pcan pfired pq ppc pmsg psubs] in H.
+  destruct (cn && negb (closing q)) eqn:G; inv H; (split; [reflexivity|]); eexists; (split; [reflexivity|]); cbn [m3owed m3subs m3msg m3can m3fired m3done m3stale].
+  - apply andb_true_iff in G. destruct G as (-> & G). cbn [orb].
+    destruct (close_spec q Iq) as (Iq' & Cq' & P). apply mk_R3; rewrite ?P; auto.
+    split; [exact Iq'|]. split; [exact Cq'|exact Nd].
+  - assert (X: cn || closing q = closing q) by (destruct cn, (closing q); cbn in *; congruence).
+    cbn [mon3_op m3can m3fired]. rewrite X. apply mk_R3; auto.
+Qed.
+
+Lemma base_block p1 e1 : steps3 p [GBlock] = (p1, e1) -> R3 p m ever ->
+  e1 = [] /\ exists m1, mon3_op m [7] = (m1, []) /\ R3 p1 m1 ever.
+Proof.
+  intros H R. subst p m. r3_prelude R.
+  destruct (step3_spec 0 (mkps q cn (closing q) pc mg sb) GBlock _ _ ltac:(discriminate) eq_refl I) as (Ia & _).
+  cbn in H. inv H. split; [reflexivity|]. eexists; split; [reflexivity|]. cbn [m3owed m3subs m3msg m3can m3fired m3done m3stale].
+  destruct (try_sched_spec q (blocker, 0) Iq) as (_ & _ & P).
+  assert (Nbs: memz blocker sb = false).
+  { destruct (memz blocker sb) eqn:M; [|reflexivity]. destruct (Sv _ M) as (_ & X). congruence. }
+  apply mk_R3; auto; rewrite P.
+  - rewrite app_assoc, (fsub_app _ (cbs pc ++ pending q)).
+    destruct (closing q); cbn [fsub filter fst]; rewrite ?Nbs, ?app_nil_r; reflexivity.
+  - intros sm Hin. rewrite app_assoc in Hin. apply in_app_or in Hin. destruct Hin as [Hin|Hin]; [auto|].
+    destruct (closing q); [destruct Hin|]. destruct Hin as [<-|[]]. left. reflexivity.
+Qed.
+
+Lemma base_release p1 e1 : steps3 p [GRelease] = (p1, e1) -> R3 p m ever ->
+  e1 = [] /\ exists m1, mon3_op m [8] = (m1, []) /\ R3 p1 m1 ever.
+Proof.
+  intros H R. subst p m. r3_prelude R.
+  assert (Nbs: memz blocker sb = false).
+  { destruct (memz blocker sb) eqn:M; [|reflexivity]. destruct (Sv _ M) as (_ & X). congruence. }
+  cbn [steps3 step3 ppc] in H.
+  destruct pc as [|a|[s' m']|]; try solve [inv H; split; [reflexivity|]; eexists; split; [reflexivity|]; apply mk_R3; auto].
+  destruct (s' =? blocker) eqn:Eb; inv H; (split; [reflexivity|]); eexists; (split; [reflexivity|]); cbn [m3owed m3subs m3msg m3can m3fired m3done m3stale].
+  - apply Z.eqb_eq in Eb. subst s'. apply (mk_R3 q cn (closing q) PRecv); auto; try exact I.
+    + cbn [cbs app fsub filter fst]. rewrite Nbs. reflexivity.
+    + intros sm Hin. apply Ev. right. exact Hin.
+  - apply mk_R3; auto.
+Qed.
+
+Lemma base_unsub s p1 e1 : steps3 p (if memz s sb then [GUnsub s] else []) = (p1, e1) -> R3 p m ever ->
+  e1 = [] /\ exists m1, mon3_op m [6; s] = (m1, []) /\ R3 p1 m1 ever.
+Proof.
+  intros H R. subst p m. r3_prelude R. destruct (memz s sb) eqn:M.
+  - destruct (step3_spec 0 (mkps q cn (closing q) pc mg sb) (GUnsub s) _ _ ltac:(discriminate) eq_refl I) as (Ia & _).
+    cbn in H. inv H. split; [reflexivity|]. eexists; split; [reflexivity|]. cbn [m3owed m3subs m3msg m3can m3fired m3done m3stale].
+    apply mk_R3; auto.
+    + unfold fsub. rewrite filter_filter'. apply filter_ext_in'. intros [x v] _. cbn.
+      rewrite memz_remz, (Z.eqb_sym s x), andb_comm. reflexivity.
+    + intros x Hx. rewrite memz_remz in Hx. apply andb_true_iff in Hx. apply Sv. tauto.
+  - cbn in H. inv H. split; [reflexivity|]. eexists; split; [reflexivity|]. cbn [m3owed m3subs m3msg m3can m3fired m3done m3stale].
+    cbn [mon3_op m3owed m3subs m3msg m3can m3fired m3done m3stale]. rewrite (remz_id _ _ M).
+    replace (filter (fun sm => negb (s =? fst sm)) (fsub sb (cbs pc ++ pending q))) with (fsub sb (cbs pc ++ pending q)).
+    + apply mk_R3; auto.
+    + unfold fsub. rewrite filter_filter'. apply filter_ext_in'. intros [x v] _. cbn.
+      destruct (memz x sb) eqn:Mx; [|reflexivity]. cbn.
+      destruct (s =? x) eqn:E; [apply Z.eqb_eq in E; subst; congruence|reflexivity].
+Qed.
+
+Lemma base_pub v p1 e1 : steps3 p [GPub v []] = (p1, e1) -> R3 p m ever ->
+  e1 = [] /\ exists m1, mon3_op m [2; v] = (m1, []) /\ R3 p1 m1 ever.
+Proof.
+  intros H R. subst p m. r3_prelude R.
+  cbn [steps3] in H. destruct (step3 _ (GPub v [])) as [pa ea] eqn:Ea. inv H.
+  destruct (step3_spec 0 _ _ _ _ ltac:(discriminate) Ea I) as (Ia & _).
+  cbn [step3 pcan pfired pq ppc pmsg psubs] in Ea. inv Ea. split; [reflexivity|]. eexists; split; [reflexivity|]. cbn [m3owed m3subs m3msg m3can m3fired m3done m3stale].
+  rewrite pub_order_nil in *. pose proof (fold_sched_spec v sb q Iq) as X. cbv zeta in X. destruct X as (_ & _ & P).
+  assert (Hm: forall x, In x sb -> memz x sb = true) by (intros; apply memz_In; auto).
+  apply mk_R3; auto; rewrite P.
+  - rewrite app_assoc, (fsub_app _ (cbs pc ++ pending q)). f_equal.
+    destruct (closing q); [reflexivity|]. rewrite fsub_map; auto.
+  - intros sm Hin. rewrite app_assoc in Hin. apply in_app_or in Hin. destruct Hin as [Hin|Hin]; [auto|].
+    destruct (closing q); [destruct Hin|]. apply in_map_iff in Hin. destruct Hin as (x & <- & Hx). cbn.
+    right. apply Sv. auto.
+Qed.
+
+Lemma base_sub s p1 e1 : 0 <= s -> memz s ever = false ->
+  steps3 p (if memz s sb then [] else [GSub s]) = (p1, e1) -> R3 p m ever ->
+  e1 = [] /\ exists m1, mon3_op m [1; s] = (m1, []) /\ R3 p1 m1 (s :: ever).
+Proof.
+  intros Pos W H R. subst p m. r3_prelude R.
+  assert (M: memz s sb = false).
+  { destruct (memz s sb) eqn:M; [|reflexivity]. destruct (Sv _ M) as (X & _). congruence. }
+  rewrite M in *. cbn [steps3] in H. destruct (step3 _ (GSub s)) as [pa ea] eqn:Ea. inv H.
+  destruct (step3_spec 0 _ _ _ _ ltac:(discriminate) Ea I) as (Ia & _).
+  cbn [step3 pcan pfired pq ppc pmsg psubs] in Ea. inv Ea. split; [reflexivity|].
+  cbn [mon3_op m3subs m3owed m3msg m3can m3fired m3done m3stale]. rewrite M. eexists; split; [reflexivity|].
+  assert (P: pending (match mg with Some m => try_sched q (s, m) | None => q end) =
+             pending q ++ match mg with Some v => if closing q then [] else [(s, v)] | None => [] end).
+  { destruct mg as [v|]; [|rewrite app_nil_r; reflexivity]. destruct (try_sched_spec q (s, v) Iq) as (_ & _ & ->). reflexivity. }
+  assert (Hold: forall sm, In sm (cbs pc ++ pending q) -> fst sm =? s = false).
+  { intros sm Hin. destruct (fst sm =? s) eqn:E; [|reflexivity]. apply Z.eqb_eq in E.
+    destruct (Ev _ Hin) as [X|X]; [unfold blocker in X; lia|]. rewrite E in X. congruence. }
+  apply mk_R3; auto; rewrite ?P.
+  - rewrite app_assoc, (fsub_app _ (cbs pc ++ pending q)). f_equal.
+    + unfold fsub. apply filter_ext_in'. intros sm Hin. rewrite memz_insz, (Hold _ Hin). reflexivity.
+    + destruct mg as [v|]; [|reflexivity]. destruct (closing q); [reflexivity|].
+      unfold fsub. cbn. rewrite memz_insz, Z.eqb_refl. reflexivity.
+  - intros sm Hin. rewrite app_assoc in Hin. apply in_app_or in Hin. cbn [memz].
+    destruct Hin as [Hin|Hin].
+    + destruct (Ev _ Hin) as [X|X]; [left; exact X|right; rewrite X; apply orb_true_r].
+    + destruct mg as [v|]; [|destruct Hin]. destruct (closing q); [destruct Hin|].
+      destruct Hin as [<-|[]]. right. cbn. rewrite Z.eqb_refl. reflexivity.
+  - intros x Hx. rewrite memz_insz in Hx. cbn [memz]. apply orb_true_iff in Hx.
+    destruct Hx as [Hx|Hx].
+    + apply Z.eqb_eq in Hx. subst x. rewrite Z.eqb_refl. split; [reflexivity|]. unfold blocker. lia.
+    + destruct (Sv _ Hx) as (X1 & X2). rewrite X1. split; [apply orb_true_r|exact X2].
+Qed.
+End Base3.
+
+Definition ever_next (ever : list Z) (op : word) : list Z := match op with [1; s] => s :: ever | _ => ever end.
+Definition wf3_op (ever : list Z) (op : word) : bool := match op with [1; s] => (0 <=? s) && negb (memz s ever) | _ => true end.
+
+Lemma R3_ever_mono p m ever : R3 p m ever -> R3 p m ever.
+Proof. auto. Qed.
+
 Lemma bridge3_base p m ever op l p1 e1 : base3 p op = Some l -> steps3 p l = (p1, e1) ->
   R3 p m ever -> wf3_op ever op = true ->
   e1 = [] /\ exists m1, mon3_op m op = (m1, []) /\ R3 p1 m1 (ever_next ever op).
 Proof.
-  intros B H (Ro & Rs & Rm & Rc & Rf & Rd & Ev & Sv & I) W. pose proof I as (Iq & C & Nd).
-  destruct p as [q cn fr pc mg sb]; destruct m as [ow ms mm mc mf md];
-    unfold qall in *; cbn [pq pcan pfired ppc pmsg psubs m3owed m3subs m3msg m3can m3fired m3done] in *. subst.
-  unfold base3 in B. cbn [psubs] in B. zcases B; inv B; cbn [ever_next wf3_op mon3_op m3owed m3subs m3msg m3can m3fired m3done] in *.
-  - (* [5] *)
-    cbn [steps3] in H. destruct (step3 _ GCancel) as [pa ea] eqn:Ea. destruct (step3 pa GAfter) as [pb eb] eqn:Eb. inv H.
-    destruct (step3_spec 0 _ _ _ _ Ea I) as (Ia & _). destruct (step3_spec 0 _ _ _ _ Eb Ia) as (Ib & _).
-    cbn in Ea. inv Ea. cbn [step3 pcan pfired pq ppc pmsg psubs andb] in Eb.
-    destruct (closing q) eqn:Cg; cbn [negb] in Eb; inv Eb; (split; [reflexivity|]); eexists; (split; [reflexivity|]).
-    + apply mk_R3; auto.
-    + destruct (close_spec q Iq) as (_ & _ & P). apply mk_R3; rewrite ?P; auto.
-  - (* [3] *)
-    destruct (step3_spec 0 (mkps q cn (closing q) pc mg sb) GCancel _ _ eq_refl I) as (Ia & _).
-    cbn in H. inv H. split; [reflexivity|]. eexists; split; [reflexivity|]. apply mk_R3; auto.
-  - (* [6;s] *)
-    rename z into s. destruct (memz s sb) eqn:M.
-    + cbn in H. inv H. split; [reflexivity|]. eexists; split; [reflexivity|].
-      destruct (step3_spec 0 (mkps q cn (closing q) pc mg sb) (GUnsub s) _ _ eq_refl I) as (Ia & _).
-      apply mk_R3; auto.
-      * unfold fsub. rewrite filter_filter'. apply filter_ext_in'. intros [x v] _. cbn.
-        rewrite memz_remz, (Z.eqb_sym s x), andb_comm. reflexivity.
-      * intros x Hx. rewrite memz_remz in Hx. apply andb_true_iff in Hx. apply Sv. tauto.
-    + cbn in H. inv H. split; [reflexivity|]. eexists; split; [reflexivity|].
-      rewrite (remz_id _ _ M).
-      replace (filter (fun sm => negb (s =? fst sm)) (fsub sb (cbs pc ++ pending q))) with (fsub sb (cbs pc ++ pending q)).
-      * apply mk_R3; auto.
-      * unfold fsub. rewrite filter_filter'. apply filter_ext_in'. intros [x v] _. cbn.
-        destruct (memz x sb) eqn:Mx; [|reflexivity]. cbn.
-        destruct (s =? x) eqn:E; [apply Z.eqb_eq in E; subst; congruence|reflexivity].
-  - (* [4] *)
-    cbn [steps3 step3 pcan pfired pq ppc pmsg psubs] in H.
-    destruct (cn && negb (closing q)) eqn:G; inv H; (split; [reflexivity|]); eexists; (split; [reflexivity|]).
-    + apply andb_true_iff in G. destruct G as (-> & G). cbn [orb].
-      destruct (close_spec q Iq) as (Iq' & Cq' & P). apply mk_R3; rewrite ?P; auto.
-      split; [exact Iq'|]. split; [exact Cq'|exact Nd].
-    + assert (X: cn || closing q = closing q) by (destruct cn, (closing q); cbn in *; congruence).
-      rewrite X. apply mk_R3; auto.
-  - (* [2;v] *)
-    rename z into v. cbn [steps3] in H. destruct (step3 _ (GPub v [])) as [pa ea] eqn:Ea. inv H.
-    destruct (step3_spec 0 _ _ _ _ Ea I) as (Ia & _).
-    cbn [step3 pcan pfired pq ppc pmsg psubs] in Ea. inv Ea. split; [reflexivity|]. eexists; split; [reflexivity|].
-    rewrite pub_order_nil in *. pose proof (fold_sched_spec v sb q Iq) as X. cbv zeta in X. destruct X as (_ & _ & P).
-    assert (Hm: forall x, In x sb -> memz x sb = true) by (intros; apply memz_In; auto).
-    apply mk_R3; auto; rewrite P.
-    + rewrite app_assoc, (fsub_app _ (cbs pc ++ pending q)). f_equal.
-      destruct (closing q); [reflexivity|]. rewrite fsub_map; auto.
-    + intros sm Hin. rewrite app_assoc in Hin. apply in_app_or in Hin. destruct Hin as [Hin|Hin]; [auto|].
-      destruct (closing q); [destruct Hin|]. apply in_map_iff in Hin. destruct Hin as (x & <- & Hx). cbn. auto.
-  - (* [1;s] *)
-    rename z into s. apply negb_true_iff in W.
-    assert (M: memz s sb = false).
-    { destruct (memz s sb) eqn:M; [|reflexivity]. rewrite (Sv _ M) in W. discriminate W. }
-    rewrite M in *. cbn [steps3] in H. destruct (step3 _ (GSub s)) as [pa ea] eqn:Ea. inv H.
-    destruct (step3_spec 0 _ _ _ _ Ea I) as (Ia & _).
-    cbn [step3 pcan pfired pq ppc pmsg psubs] in Ea. inv Ea. split; [reflexivity|]. eexists; split; [reflexivity|].
-    assert (P: pending (match mg with Some m => try_sched q (s, m) | None => q end) =
-               pending q ++ match mg with Some v => if closing q then [] else [(s, v)] | None => [] end).
-    { destruct mg as [v|]; [|rewrite app_nil_r; reflexivity]. destruct (try_sched_spec q (s, v) Iq) as (_ & _ & ->). reflexivity. }
-    assert (Hold: forall sm, In sm (cbs pc ++ pending q) -> fst sm =? s = false).
-    { intros sm Hin. destruct (fst sm =? s) eqn:E; [|reflexivity]. apply Z.eqb_eq in E. rewrite <- E in W.
-      rewrite (Ev _ Hin) in W. discriminate W. }
-    apply mk_R3; auto; rewrite ?P.
-    + rewrite app_assoc, (fsub_app _ (cbs pc ++ pending q)). f_equal.
-      * unfold fsub. apply filter_ext_in'. intros sm Hin. rewrite memz_insz, (Hold _ Hin). reflexivity.
-      * destruct mg as [v|]; [|reflexivity]. destruct (closing q); [reflexivity|].
-        unfold fsub. cbn. rewrite memz_insz, Z.eqb_refl. reflexivity.
-    + intros sm Hin. rewrite app_assoc in Hin. apply in_app_or in Hin. cbn [memz].
-      destruct Hin as [Hin|Hin]; [rewrite (Ev _ Hin); apply orb_true_r|].
-      destruct mg as [v|]; [|destruct Hin]. destruct (closing q); [destruct Hin|].
-      destruct Hin as [<-|[]]. cbn. rewrite Z.eqb_refl. reflexivity.
-    + intros x Hx. rewrite memz_insz in Hx. cbn [memz]. apply orb_true_iff in Hx.
-      destruct Hx as [->|Hx]; [reflexivity|]. rewrite (Sv _ Hx). apply orb_true_r.
+  intros B H R W. destruct p as [q cn fr pc mg sb]; destruct m as [ow ms mm mc mf md st].
+  unfold base3 in B. cbn [psubs] in B. zcases B; inv B; cbn [ever_next wf3_op] in *.
+  all: first
+    [ solve [eapply base_both; eauto] | solve [eapply base_cancel; eauto] | solve [eapply base_after; eauto]
+    | solve [eapply base_block; eauto] | solve [eapply base_release; eauto]
+    | solve [eapply base_unsub; eauto] | solve [eapply base_pub; eauto]
+    | solve [apply andb_true_iff in W; destruct W as (W1 & W2); apply Z.leb_le in W1; apply negb_true_iff in W2;
+             eapply base_sub; eauto ] ].
 Qed.
 
 Lemma mon3_evs_app : forall a b m,
@@ -1148,6 +1250,93 @@ Proof.
   - destruct (mon3_evs m b); reflexivity.
   - destruct (mon3_ev m e) as [m1 c1]. rewrite IH.
     destruct (mon3_evs m1 a) as [m2 c2]. destruct (mon3_evs m2 b) as [m3 c3]. rewrite app_assoc. reflexivity.
+Qed.
+
+Lemma take_first_comm : forall l s s' v r v' r', s <> s' ->
+  take_first s l = Some (v, r) -> take_first s' r = Some (v', r') ->
+  exists r2, take_first s' l = Some (v', r2) /\ take_first s r2 = Some (v, r').
+Proof.
+  induction l as [|[a b] t IH]; intros s s' v r v' r' N H1 H2; cbn in H1; [discriminate H1|].
+  destruct (s =? a) eqn:Ea.
+  - inv H1. apply Z.eqb_eq in Ea. subst a. cbn.
+    assert (Es: s' =? s = false) by (apply Z.eqb_neq; congruence). rewrite Es, H2.
+    eexists. split; [reflexivity|]. cbn. rewrite Z.eqb_refl. reflexivity.
+  - destruct (take_first s t) as [[v0 rt]|] eqn:Ht; [|discriminate H1]. inv H1. cbn in H2. cbn.
+    destruct (s' =? a) eqn:Ea'.
+    + inv H2. eexists. split; [reflexivity|]. exact Ht.
+    + destruct (take_first s' rt) as [[v1 rt']|] eqn:Ht'; [|discriminate H2]. inv H2.
+      destruct (IH _ _ _ _ _ _ N Ht Ht') as (r2 & A & B). rewrite A.
+      eexists. split; [reflexivity|]. cbn. rewrite Ea, B. reflexivity.
+Qed.
+
+(* what an accepted event looks like *)
+Lemma mon3_ev_ok m e m1 c : mon3_ev m e = (m1, c) -> all_ok c = true ->
+  (exists s v r, e = EDeliver s v /\ memz s (m3subs m) = true /\ take_first s (m3owed m) = Some (v, r) /\
+                 m3done m = false /\
+                 m1 = mkm3 r (m3subs m) (m3msg m) (m3can m) (m3fired m) (m3done m) (m3stale m)) \/
+  (e = EDone /\ m3done m = false /\
+   m1 = mkm3 (m3owed m) (m3subs m) (m3msg m) (m3can m) (m3fired m) true (m3stale m)).
+Proof.
+  intros H Ok. destruct e; cbn in H; try (inv H; discriminate Ok).
+  - right. inv H. cbn in Ok. rewrite andb_true_r in Ok. apply andb_true_iff in Ok. destruct Ok as (Ok & _).
+    apply andb_true_iff in Ok. destruct Ok as (_ & Ok). apply negb_true_iff in Ok. auto.
+  - left. destruct (memz s (m3subs m)) eqn:M; cbn in H; [|inv H; discriminate Ok].
+    destruct (take_first s (m3owed m)) as [[v' r]|] eqn:T.
+    + destruct (m0 =? v') eqn:E.
+      * inv H. apply Z.eqb_eq in E. subst v'. cbn in Ok. rewrite andb_true_r in Ok. apply negb_true_iff in Ok.
+        exists s, m0, r. rewrite Ok. auto 10.
+      * destruct (take_first s (m3stale m)) as [[v'' r']|]; [destruct (m0 =? v'')|]; inv H; discriminate Ok.
+    + destruct (take_first s (m3stale m)) as [[v'' r']|]; [destruct (m0 =? v'')|]; inv H; discriminate Ok.
+Qed.
+
+Lemma mon3_deliver_ok m s v r : memz s (m3subs m) = true -> take_first s (m3owed m) = Some (v, r) ->
+  m3done m = false ->
+  mon3_ev m (EDeliver s v) = (mkm3 r (m3subs m) (m3msg m) (m3can m) (m3fired m) (m3done m) (m3stale m), [(7, s, true)]).
+Proof. intros M T D. cbn. rewrite M, T, Z.eqb_refl, D. reflexivity. Qed.
+
+Lemma swap3 m e x m1 c1 m2 c2 : le3 e x = false ->
+  mon3_ev m e = (m1, c1) -> all_ok c1 = true -> mon3_ev m1 x = (m2, c2) -> all_ok c2 = true ->
+  exists m1' c1' c2', mon3_ev m x = (m1', c1') /\ all_ok c1' = true /\
+                      mon3_ev m1' e = (m2, c2') /\ all_ok c2' = true.
+Proof.
+  intros L H1 O1 H2 O2.
+  destruct (mon3_ev_ok _ _ _ _ H1 O1) as [(s & v & r & -> & M & T & D & ->)|(-> & D & ->)];
+  destruct (mon3_ev_ok _ _ _ _ H2 O2) as [(s' & v' & r' & -> & M' & T' & D' & ->)|(-> & D' & ->)];
+    cbn [m3owed m3subs m3msg m3can m3fired m3done m3stale] in *; try discriminate.
+  - cbn in L. apply Z.leb_gt in L. assert (N: s <> s') by lia.
+    destruct (take_first_comm _ _ _ _ _ _ _ N T T') as (r2 & A & B).
+    do 3 eexists. rewrite (mon3_deliver_ok m s' v' r2 M' A D).
+    split; [reflexivity|]. split; [reflexivity|].
+    rewrite (mon3_deliver_ok _ s v r'); cbn [m3owed m3subs m3done]; auto.
+Qed.
+
+Lemma ins3_ok : forall l m e m' cs, mon3_evs m (e :: l) = (m', cs) -> all_ok cs = true ->
+  exists cs', mon3_evs m (ins3 e l) = (m', cs') /\ all_ok cs' = true.
+Proof.
+  induction l as [|x r IH]; intros m e m' cs H Ok; [cbn [ins3]; eauto|].
+  cbn [ins3]. destruct (le3 e x) eqn:L; [eauto|].
+  cbn [mon3_evs] in H. destruct (mon3_ev m e) as [m1 c1] eqn:E1. destruct (mon3_ev m1 x) as [m2 c2] eqn:E2.
+  destruct (mon3_evs m2 r) as [m3 c3] eqn:E3. inv H.
+  rewrite !all_ok_app in Ok. apply andb_true_iff in Ok. destruct Ok as (O1 & Ok).
+  apply andb_true_iff in Ok. destruct Ok as (O2 & O3).
+  destruct (swap3 _ _ _ _ _ _ _ L E1 O1 E2 O2) as (m1' & c1' & c2' & A & OA & B & OB).
+  destruct (IH m1' e m' (c2' ++ c3)) as (cs' & C & OC).
+  { cbn [mon3_evs]. rewrite B, E3. reflexivity. }
+  { rewrite all_ok_app, OB, O3. reflexivity. }
+  exists (c1' ++ cs'). cbn [mon3_evs]. rewrite A, C. split; [reflexivity|]. rewrite all_ok_app, OA, OC. reflexivity.
+Qed.
+
+Lemma sort3_ok : forall l m m' cs, mon3_evs m l = (m', cs) -> all_ok cs = true ->
+  exists cs', mon3_evs m (sort3 l) = (m', cs') /\ all_ok cs' = true.
+Proof.
+  induction l as [|e l IH]; intros m m' cs H Ok; [cbn; eauto|].
+  cbn [sort3 fold_right]. fold (sort3 l).
+  cbn [mon3_evs] in H. destruct (mon3_ev m e) as [m1 c1] eqn:E1. destruct (mon3_evs m1 l) as [m2 c2] eqn:E2. inv H.
+  rewrite all_ok_app in Ok. apply andb_true_iff in Ok. destruct Ok as (O1 & O2).
+  destruct (IH _ _ _ E2 O2) as (cs' & A & OA).
+  apply (ins3_ok (sort3 l) m e m' (c1 ++ cs')).
+  - cbn [mon3_evs]. rewrite E1, A. reflexivity.
+  - rewrite all_ok_app, O1, OA. reflexivity.
 Qed.
 
 Lemma bridge3_runs : forall n p m ever p' e, steps3 p (repeat GRun n) = (p', e) -> R3 p m ever ->
@@ -1183,9 +1372,10 @@ Proof.
     destruct (steps3 p1 (settle3 p1)) as [p2 e2] eqn:E2.
     destruct (bridge3_runs _ _ _ _ _ _ E2 R1') as (m2 & c2 & M2 & Ok2 & R2').
     destruct (IH p2 m2 _ Wr R2') as (obs & pf & Ex & Ok3).
-    exists (enc_evs e2 :: obs), pf. cbn [exec3 clauses3]. rewrite El, E1, E2, Ex. cbn [app].
-    split; [reflexivity|]. unfold clause3. rewrite dec_enc, Mo, M2. cbn [app].
-    rewrite all_ok_app, Ok2, Ok3. reflexivity.
+    destruct (sort3_ok _ _ _ _ M2 Ok2) as (c2' & M2' & Ok2').
+    exists (enc_evs (sort3 e2) :: obs), pf. cbn [exec3 clauses3]. rewrite El, E1, E2, Ex. cbn [app].
+    split; [reflexivity|]. unfold clause3. rewrite dec_enc, Mo, M2'. cbn [app].
+    rewrite all_ok_app, Ok2', Ok3. reflexivity.
 Qed.
 
 Lemma R1_0 : R1 ub0 mon1_0.
@@ -1215,4 +1405,10 @@ Qed.
 Theorem cancel_window_clause10 :
   exists obs, run [2] [[1; 1]; [3]; [1; 2]; [4]; [1; 3]; [2]; [2]] = Some obs /\
               first_fail (clauses [2] [[1; 1]; [3]; [1; 2]; [4]; [1; 3]; [2]; [2]] obs) = Some (10, 2).
+Proof. eexists. split; vm_compute; reflexivity. Qed.
+
+Theorem resubscribe_clause11 :
+  exists obs, run [3] [[1; 1]; [7]; [2; 1]; [2; 2]; [6; 1]; [1; 1]; [8]] = Some obs /\
+              existsb (fun c => (fst (fst c) =? 11) && negb (snd c))
+                      (clauses [3] [[1; 1]; [7]; [2; 1]; [2; 2]; [6; 1]; [1; 1]; [8]] obs) = true.
 Proof. eexists. split; vm_compute; reflexivity. Qed.
